@@ -632,10 +632,11 @@ func wellFormedDecoded(o *Outcome, tk token.Token) {
 // that the principal named as its issuer actually signed.
 func (e *wireExec) conservation(acc []accepted, orig *wireTok, mutant []byte, kindOfMutation, class string, codec string) {
 	o := e.o
+	o.Eval("C06") // one mutant decided: rejected by every decoder it was offered to, or accepted and held against the ledger
 	for _, a := range acc {
 		rec := recOf(a.tk)
 		content := rec.Content()
-		o.Eval("C06")
+		o.Probe("mutants_accepted_by_a_decoder")
 		if !e.ledger[rec.Iss][content] {
 			o.Violate("C06", "forged-content-accepted", fmt.Sprintf("%s accepted a %s mutant (%s) whose content was never signed by its issuer: %s", a.dec, kindOfMutation, class, diffRec(recOf(orig.obj), rec)), map[string]string{"mutation": kindOfMutation, "alg": orig.alg})
 			continue
